@@ -91,7 +91,8 @@ KNOWN_DEVIATIONS = {
                             'E.g. GF(3): powmod(x^5, 1, x^2+1) = x^5, expected x. Both classes.',
     'C23-binary-eval-even': 'BinaryPolynomial.__call__(x) returns 0 for every even x; expected the constant coefficient. '
                             'E.g. GF(2): (x+1)(0) = 0, expected 1.',
-    'C23-binary-reverse-unpadded': 'BinaryPolynomial.reverse(d) with d < degree does not pad the truncated polynomial back '
+    'C23-binary-reverse-unpadded': 'FIXED in /repo (f8e05fb); would be reported again under this key: '
+                                   'BinaryPolynomial.reverse(d) with d < degree does not pad the truncated polynomial back '
                                    'to d+1 coefficients before reversing, the generic list code does (representations '
                                    'disagree for p = 2). E.g. GFpX(2)(5).reverse(1) = 1, expected x (= reverse of 1 + 0x).',
 }
